@@ -1,7 +1,7 @@
 #!/bin/sh
 # Independent re-check (coqchk) of EVERY compiled Props module and everything it depends on, in one run
 # (each library is checked once; about 40 min single-threaded, dominated by the wire-format proofs).
-# Writes evidence/coqchk-all.json.  The per-check thorough tier runs coqchk itself for the properties where
+# Writes records/coqchk-all.json.  The per-check thorough tier runs coqchk itself for the properties where
 # that takes a minute or two; for C03 C06 C07 C10 C20 (30+ min each, same libraries) it refers to this file.
 set -u
 V=$(dirname "$(dirname "$(readlink -f "$0")")")
@@ -12,7 +12,7 @@ T0=$(date +%s)
 OUT=$(timeout 14400 coqchk -o -silent -Q . SV $MODS 2>&1); RC=$?
 T1=$(date +%s)
 echo "$OUT" | tail -20
-python3 - "$RC" "$N" "$((T1-T0))" <<PY > "$V/evidence/coqchk-all.json"
+python3 - "$RC" "$N" "$((T1-T0))" <<PY > "$V/records/coqchk-all.json"
 import sys, re, json, subprocess
 out = '''$(echo "$OUT" | tail -40 | sed "s/'/ /g")'''
 def grab(pat):
@@ -25,5 +25,5 @@ print(json.dumps({
   'unsafe_fixpoints': grab(r'unsafe \(co\)fixpoints:\s*(.*?)\n\s*\n'), 'positivity_assumed': grab(r'positivity is assumed:\s*(\S[^\n]*)'),
 }, indent=1))
 PY
-cat "$V/evidence/coqchk-all.json"
+cat "$V/records/coqchk-all.json"
 exit $RC
